@@ -95,6 +95,8 @@ type FCase struct {
 	//                                             every goroutine of the call is blocked then (parked operation, Acquire, done channel)
 	Cut       []int         `json:"cut"`       // ExtendedCopyGraph: FindPredecessors answers "none" for these nodes (they become roots
 	//                                             although other roots reach them: nested roots)
+	RefFetch  bool          `json:"reffetch"`  // Copy: the source is a registry.ReferenceFetcher (resolveRoot reads the root through it
+	//                                             and leaves a manifest root in the proxy cache)
 	NilCb     string        `json:"nilcb"`     // "" (all callbacks set) or 5 bits: PreCopy PostCopy OnCopySkipped OnMounted MountFrom set
 	MapRoot   bool          `json:"maproot"`   // Copy gets an (identity) MapRoot: a prologue fault point
 	Mount     bool          `json:"mount"`     // the destination is a registry.Mounter and MountFrom is set (g, t, x)
@@ -388,6 +390,70 @@ func (s fsrcT) Resolve(ctx context.Context, ref string) (ocispec.Descriptor, err
 	}
 	f.ev("QK", 0, 0)
 	return d, nil
+}
+
+// fsrcTRef additionally implements registry.ReferenceFetcher (as remote repositories do): resolveRoot
+// fetches the root by reference and reads it (content.Successors) while the proxy caches it.  Prologue
+// fault points: the FetchReference call ("resolve") and the reading of the root stream ("rootread").
+type fsrcTRef struct{ fsrcT }
+
+type prologueReader struct {
+	r         io.ReadCloser
+	f         *fcall
+	half      int64
+	delivered int64
+	started   bool
+	afterSeen bool
+	failed    bool
+}
+
+func (pr *prologueReader) Read(p []byte) (int, error) {
+	if pr.failed {
+		return 0, errFault
+	}
+	fail := false
+	if !pr.started {
+		pr.started = true
+		fail = pr.f.hit("rootread", -1, false)
+	}
+	if !fail && !pr.afterSeen && pr.delivered >= pr.half {
+		pr.afterSeen = true
+		fail = pr.f.hit("rootread", -1, true)
+	}
+	if fail {
+		pr.failed = true
+		pr.f.ev("QX", 0, 0)
+		return 0, errFault
+	}
+	if !pr.afterSeen && int64(len(p)) > pr.half-pr.delivered {
+		p = p[:pr.half-pr.delivered]
+	}
+	k, err := pr.r.Read(p)
+	pr.delivered += int64(k)
+	return k, err
+}
+
+func (pr *prologueReader) Close() error { return pr.r.Close() }
+
+func (s fsrcTRef) FetchReference(ctx context.Context, ref string) (ocispec.Descriptor, io.ReadCloser, error) {
+	f := s.f
+	f.pause(-1)
+	if f.hit("resolve", -1, false) {
+		f.ev("QX", 0, 0)
+		return ocispec.Descriptor{}, nil, errFault
+	}
+	d, err := s.t.Resolve(ctx, ref)
+	if err != nil {
+		f.ev("QX", 0, 0)
+		return d, nil, err
+	}
+	rc, err := s.t.Fetch(ctx, d)
+	if err != nil {
+		f.ev("QX", 0, 0)
+		return d, nil, err
+	}
+	f.ev("QK", 0, 0)
+	return d, &prologueReader{r: rc, f: f, half: d.Size / 2}, nil
 }
 
 type fdst struct{ f *fcall }
@@ -823,7 +889,11 @@ func runCall(c *FCase, g *dag.Graph, src, dst oras.Target, faults []Fault, preCa
 			} else if c.Mount {
 				d = fdstMount{dw}
 			}
-			_, call.Err = oras.Copy(ctx, fsrcT{sw, src, f}, fSrcRef, d, fDstRef, opts)
+			var cs oras.ReadOnlyTarget = fsrcT{sw, src, f}
+			if c.RefFetch {
+				cs = fsrcTRef{fsrcT{sw, src, f}}
+			}
+			_, call.Err = oras.Copy(ctx, cs, fSrcRef, d, fDstRef, opts)
 		}
 		// the return is logged at once: a straggler goroutine that outlives the call logs AFTER it
 		// and the transition system rejects the trace (nothing follows Ret)
@@ -968,6 +1038,12 @@ func fModelInput(c *FCase, g *dag.Graph, roots []int, d0 []int, toks []string, r
 	api := c.API
 	if c.Mount {
 		api += "m"
+	}
+	// resolveRoot through a ReferenceFetcher leaves the resolved manifest in the proxy cache (a manifest is read
+	// completely by content.Successors; an empty blob is "completely read" too; any other blob is left unread
+	// and its cache push fails the size check)
+	if c.RefFetch && (c.API == "t" || c.API == "r") && (g.Nodes[c.Root].IsManifest() || len(g.Nodes[c.Root].Bytes) == 0) {
+		api += "c"
 	}
 	if len(c.NilCb) == 5 {
 		api += "/" + c.NilCb
@@ -1275,6 +1351,9 @@ func GenerateF(genseed uint64, stream string, thorough bool) *FCase {
 	if c.API != "r" && r.Chance(1, 4) {
 		c.Mount = true
 	}
+	if (c.API == "t" || c.API == "r") && r.Chance(1, 3) {
+		c.RefFetch = true
+	}
 	if r.Chance(1, 4) {
 		// some callbacks are nil (their invocations are inserted by the model's elaboration)
 		bs := []byte("11111")
@@ -1340,6 +1419,9 @@ func GenerateF(genseed uint64, stream string, thorough bool) *FCase {
 		}
 		if (c.API == "t" || c.API == "r") && r.Chance(1, 10) {
 			ft.Op, ft.Node, ft.After = "resolve", -1, false
+		}
+		if c.RefFetch && r.Chance(1, 8) {
+			ft.Op, ft.Node = "rootread", -1
 		}
 		if c.Mount && ft.Node >= 0 && !g.Nodes[ft.Node].IsManifest() && r.Chance(3, 4) {
 			ft.Op = common.Pick(r, []string{"mount", "mount", "mountfrom", "mounted", "pre", "fetch"})
@@ -1505,6 +1587,9 @@ func allPlacements(c *FCase, g *dag.Graph) []Fault {
 	if c.API == "t" || c.API == "r" {
 		out = append(out, Fault{Op: "resolve", Node: -1}, Fault{Op: "resolve", Node: -1, Cancel: true})
 	}
+	if c.RefFetch {
+		out = append(out, Fault{Op: "rootread", Node: -1}, Fault{Op: "rootread", Node: -1, After: true}, Fault{Op: "rootread", Node: -1, Cancel: true})
+	}
 	if c.API == "t" {
 		for _, after := range []bool{false, true} {
 			for _, cn := range []bool{false, true} {
@@ -1637,6 +1722,9 @@ func DriveF(run *common.Run, b FBudget) {
 		}
 		if len(c.NilCb) == 5 {
 			run.Count("nil-callbacks")
+		}
+		if c.RefFetch {
+			run.Count("src-reference-fetcher")
 		}
 		if len(c.Cut) > 0 {
 			run.Count("nested-roots(FindPredecessors cut)")
